@@ -24,6 +24,7 @@ structure Atn where
   ruleStart : List Nat
   sets : List (List (Nat × Nat))      -- intervals
   edges : List Edge
+  decisions : List Nat := []          -- decision number ↦ decision state
   deriving Repr, Inhabited
 
 def nat (i : Int) : Nat := i.toNat
@@ -103,9 +104,13 @@ def deserialize (xs : List Int) : Option Atn :=
                           | ne :: rest =>
                             match readEdges (nat ne) rest [] with
                             | none => none
-                            | some (edges, _) =>
+                            | some (edges, rest) =>
+                              let decisions : List Nat :=
+                                match rest with
+                                | nd :: rest => ((readList (nat nd) rest []).map (·.1)).getD []
+                                | [] => []
                               some { maxTok := nat maxTok, stateRule := srule, stateType := stype, ruleStart := starts,
-                                     sets := sets, edges := edges }
+                                     sets := sets, edges := edges, decisions := decisions }
                           | [] => none
                       | [] => none
                   | [] => none
@@ -455,5 +460,40 @@ def atnModeRules (l : LexAtn) (m : Nat) : List Nat :=
   | none => []
   | some s => ((l.base.edges.filter (fun e => e.src == s && e.ty == 1)).map (fun e =>
       (l.base.ruleStart.findIdx? (· == e.trg)).getD 9999))
+
+/-! ### the code of a generated parser against the automaton
+
+    A generated rule function states facts about the ATN: which state it is in (`SetState`), which
+    decision it asks the interpreter to predict there, which token it matches, which rule it calls,
+    where the rule starts.  These tests say whether such a statement is a fact of the automaton. -/
+
+/-- decision `d` is predicted at state `s`: `s` is the decision state, or (loop-back of a `*`/`+`
+    loop) has an epsilon edge into it -/
+def decisionAt (a : Atn) (s d : Nat) : Bool :=
+  match a.decisions[d]? with
+  | none => false
+  | some ds => ds == s || a.edges.any (fun e => e.src == s && e.ty == 1 && e.trg == ds)
+
+/-- state `s` has an atom edge on token type `t` (`t = 0`: EOF) -/
+def matchAt (a : Atn) (s t : Nat) : Bool :=
+  a.edges.any (fun e => e.src == s && e.ty == 5 && (if t == 0 then e.a3 != 0 else e.a3 == 0 && e.a1 == t))
+
+/-- state `s` has a rule edge into rule `r` -/
+def callAt (a : Atn) (s r : Nat) : Bool :=
+  a.edges.any (fun e => e.src == s && e.ty == 3 && e.a2 == r && some e.a1 == a.ruleStart[r]?)
+
+def indexOfStr (x : String) (xs : List String) : Option Nat :=
+  let i := xs.findIdx (· == x)
+  if i < xs.length then some i else none
+
+/-- all code facts of one generated parser hold of the automaton -/
+def codeAgrees (a : Atn) (rules symbolic : List String)
+    (enter : List (String × Nat)) (decisions : List (Nat × Nat)) (mtchs calls : List (Nat × String)) : Bool :=
+  enter.all (fun (r, s) => match indexOfStr r rules with | some i => a.ruleStart[i]? == some s | none => false) &&
+  decisions.all (fun (s, d) => decisionAt a s d) &&
+  mtchs.all (fun (s, t) =>
+    if t == "EOF" then matchAt a s 0
+    else match indexOfStr t symbolic with | some i => i != 0 && matchAt a s i | none => false) &&
+  calls.all (fun (s, r) => match indexOfStr r rules with | some i => callAt a s i | none => false)
 
 end FgaVerif.Model.AtnGraph
